@@ -111,8 +111,10 @@ def operator_minus(i):
 @builtin('add.period$')
 def add_period(i):
     s = i.pop()
-    if s and not s.rstrip('}')[-1] in '.?!':
-        s += '.'
+    if s:
+        last = s.rstrip('}')[-1:]
+        if not last or last not in '.?!':
+            s += '.'
     i.push(s)
 
 @builtin('call.type$')
